@@ -119,5 +119,16 @@ claim(
     "take is allowed, every section kind the code can emit is listed. Validation of concrete generated dumps is not performed.",
     TB + "; docs/schema.json is read at run time; provenance tables (decorator linenos, parameter kinds) are verified structurally",
 )
+claim(
+    "C19",
+    "def-use direction of every store in the merge functions, finite-domain abstract evaluation of the member-merge dispatch, of "
+    "merge_stubs' module selection and of the loader's stub-sub-module condition over directory layouts (pure path arithmetic), "
+    "handler coverage, alias-dereference discipline",
+    "Decided on every path / abstract state: stores go stubs -> runtime on the same field, the docstring only when missing, parameters per "
+    "name with a per-parameter skip; the member dispatch table (stub-only, stub alias, kind mismatch, unresolvable runtime alias, same kind) "
+    "is total and never raises; merge_stubs returns the regular module for either argument order and set_member stores that result; stub "
+    "sub-modules are loaded for every layout except in-package stubs; no alias error escapes. Field-by-field outcomes on generated pairs are not decided.",
+    TB,
+)
 for _p in [f"C{n:02d}" for n in range(1, 20) if f"C{n:02d}" not in CLAIMED]:
     NOT_YET[_p] = "check under construction in this round (static rules designed in DESIGN.md section 3; not yet registered)"
